@@ -58,6 +58,9 @@ pub struct C15Case
     pub config_abs: bool,
     pub check_mode: bool,
     pub structured: bool,
+    /// configuration file in proj/conf/ (source_dir then goes through "..")
+    #[serde(default)]
+    pub config_in_subdir: bool,
 }
 
 pub fn strategy() -> BoxedStrategy<C15Case>
@@ -77,8 +80,8 @@ pub fn strategy() -> BoxedStrategy<C15Case>
         1 => Just(Some(vec!["txt".to_string()])),
         1 => Just(Some(vec!["rsx".to_string()])),
     ];
-    (vec(e, 1..14), exts, 0u8..4, 0u8..3, any::<bool>(), any::<bool>(), any::<bool>())
-        .prop_map(|(entries, extensions, source_dir_form, cwd_form, config_abs, check_mode, structured)| C15Case {
+    (vec(e, 1..14), exts, 0u8..4, 0u8..3, any::<bool>(), any::<bool>(), any::<bool>(), prop_oneof![3 => Just(false), 1 => Just(true)])
+        .prop_map(|(entries, extensions, source_dir_form, cwd_form, config_abs, check_mode, structured, config_in_subdir)| C15Case {
             entries,
             extensions,
             source_dir_form,
@@ -86,6 +89,7 @@ pub fn strategy() -> BoxedStrategy<C15Case>
             config_abs,
             check_mode,
             structured,
+            config_in_subdir,
         })
         .boxed()
 }
@@ -213,13 +217,23 @@ pub fn check(case: &C15Case) -> CaseOutcome
         }
     }
     // configuration
-    let source_dir = match case.source_dir_form % 4
+    let conf_dir = if case.config_in_subdir { proj.join("conf") } else { proj.clone() };
+    std::fs::create_dir_all(&conf_dir).unwrap();
+    let source_dir = match (case.source_dir_form % 4, case.config_in_subdir)
     {
-        0 => "src".to_string(),
-        1 => "./src".to_string(),
-        2 => "sub/../src".to_string(),
+        (0, false) => "src".to_string(),
+        (1, false) => "./src".to_string(),
+        (2, false) => "sub/../src".to_string(),
+        (0, true) => "../src".to_string(),
+        (1, true) => "./../src".to_string(),
+        (2, true) => "../sub/../src".to_string(),
         _ => src.to_string_lossy().to_string(),
     };
+    if case.config_in_subdir
+    {
+        // a look-alike source dir next to the configuration that must NOT be used
+        put("conf/src/lookalike.rs", &mut all_files);
+    }
     let cfg = ConfigSpec {
         source_dir,
         macros: vec![MacroCfg {
@@ -230,7 +244,7 @@ pub fn check(case: &C15Case) -> CaseOutcome
         use_cache: Some(true),
         extensions: case.extensions.clone(),
     };
-    std::fs::write(proj.join("Breadlog.yaml"), cfg.yaml()).unwrap();
+    std::fs::write(conf_dir.join("Breadlog.yaml"), cfg.yaml()).unwrap();
     // invocation directory, with a decoy src/ when it is not the config dir
     let cwd = match case.cwd_form % 3
     {
@@ -243,17 +257,18 @@ pub fn check(case: &C15Case) -> CaseOutcome
         let _ = std::fs::create_dir_all(cwd.join("src"));
         std::fs::write(cwd.join("src/decoy.rs"), canary("cwd-decoy")).unwrap();
     }
+    let sub = if case.config_in_subdir { "conf/" } else { "" };
     let config_arg = if case.config_abs
     {
-        proj.join("Breadlog.yaml").to_string_lossy().to_string()
+        conf_dir.join("Breadlog.yaml").to_string_lossy().to_string()
     }
     else
     {
         match case.cwd_form % 3
         {
-            0 => "Breadlog.yaml".to_string(),
-            1 => "proj/Breadlog.yaml".to_string(),
-            _ => "../proj/Breadlog.yaml".to_string(),
+            0 => format!("{}Breadlog.yaml", sub),
+            1 => format!("proj/{}Breadlog.yaml", sub),
+            _ => format!("../proj/{}Breadlog.yaml", sub),
         }
     };
     let before = snapshot(&sb.root);
@@ -312,7 +327,8 @@ pub fn check(case: &C15Case) -> CaseOutcome
     }
     else
     {
-        let lock_rel = "proj/Breadlog.lock";
+        let lock_rel_s = if case.config_in_subdir { "proj/conf/Breadlog.lock" } else { "proj/Breadlog.lock" };
+        let lock_rel = lock_rel_s;
         for (k, ea) in &before
         {
             let eb = match after.get(k)
@@ -375,6 +391,10 @@ pub fn check(case: &C15Case) -> CaseOutcome
     }
     o.class(if case.check_mode { "mode-check" } else { "mode-edit" });
     o.class(&format!("cwd-form-{}", case.cwd_form % 3));
+    if case.config_in_subdir
+    {
+        o.class("config-in-subdirectory");
+    }
     o.class(&format!("source-dir-form-{}", case.source_dir_form % 4));
     if links > 0
     {
@@ -393,9 +413,9 @@ pub fn check(case: &C15Case) -> CaseOutcome
 
 pub fn run(env: &Env, rec: &Recorder) -> (String, Vec<&'static str>)
 {
-    pbt(env, rec, "layouts", env.cases(1600, 50_000), &strategy, &check);
+    pbt(env, rec, "layouts", env.cases(4000, 60_000), &strategy, &check);
     (
-        "directory layouts: up to 13 entries over 8 directory shapes (nesting <= 4, a directory named x.rs, names with spaces) x 20 file names (look-alike extensions .RS .rsx .rs.bak .rs~ .Rs 'rs' none, hidden, unicode, double extensions), symlinks to files and directories inside and outside the source dir, canary files outside the source dir and in a decoy src/ under the invocation directory; extension lists omitted/[rs]/[rs,rsx]/[RS]/[txt]/[rsx]; source_dir as src, ./src, sub/../src, absolute; invocation from the config dir, its parent, an unrelated dir; config path relative or absolute; both modes, both styles. Every regular file holds one statement lacking a reference. Oracle: independent scope rule; edit modifies exactly the in-scope set (one insertion each), everything else byte-identical, symlinks unchanged, Breadlog.lock only next to the config; --check scans and reports exactly the in-scope set. Non-trivial = distinct layout with a look-alike or symlink and an in-scope file at depth >= 2, or invoked from another directory".to_string(),
+        "directory layouts: up to 13 entries over 8 directory shapes (nesting <= 4, a directory named x.rs, names with spaces) x 20 file names (look-alike extensions .RS .rsx .rs.bak .rs~ .Rs 'rs' none, hidden, unicode, double extensions), symlinks to files and directories inside and outside the source dir, canary files outside the source dir and in a decoy src/ under the invocation directory; extension lists omitted/[rs]/[rs,rsx]/[RS]/[txt]/[rsx]; source_dir as src, ./src, sub/../src, absolute; configuration file in the project root or in a sub-directory (source_dir then contains `..`, with a look-alike src/ next to the configuration); invocation from the project dir, its parent, an unrelated dir; config path relative or absolute; both modes, both styles. Every regular file holds one statement lacking a reference. Oracle: independent scope rule; edit modifies exactly the in-scope set (one insertion each), everything else byte-identical, symlinks unchanged, Breadlog.lock only next to the config; --check scans and reports exactly the in-scope set. Non-trivial = distinct layout with a look-alike or symlink and an in-scope file at depth >= 2, or invoked from another directory".to_string(),
         vec!["the source dir itself being a symlink, non-UTF-8 file names and a file literally named .rs are not generated (the statement does not settle them)"],
     )
 }
